@@ -74,17 +74,25 @@ Definition mom1 (atoms : list atomT) (k : nat) : F := lsum O (fun a => am a * co
 Definition mom2 (atoms : list atomT) (k l : nat) : F := lsum O (fun a => am a * coordk a k * coordk a l) atoms.
 End Geometry.
 
-(* the same molecule in another frame / atom order: atoms' is a permutation of the moved atoms; the
-   oracles (is_linear, eigvalsh) are re-evaluated in the new frame, the frequencies are the given ones *)
+(* Species.vib_frequencies (species.py): all but the lowest 6 of the frequency list, all but the lowest 5 when the species is
+   linear.  The vibrational frequencies a species hands to the formulas are DERIVED from the linearity oracle. *)
+Definition vib_of {F} (linear : bool) (freqs : list F) : list F := skipn (if linear then 5 else 6)%nat freqs.
+
+(* the same molecule in another frame / atom order: atoms' is a permutation of the moved atoms and both carry the same given
+   frequency list `freqs`.  The linearity ORACLE is re-evaluated in the new frame; that it gives the same answer there is a
+   premise (sp_linear sp' = sp_linear sp); for atom re-orderings see are_linear_q below. *)
 Definition same_molecule {F} (O : Ops F) (Rm : @mat F) (t : nat -> F) (sp sp' : Species F) : Prop :=
   Permutation (sp_atoms sp') (map (move O Rm t) (sp_atoms sp)) /\
-  sp_linear sp' = sp_linear sp /\ sp_vib sp' = sp_vib sp.
+  sp_linear sp' = sp_linear sp /\
+  exists freqs, sp_vib sp = vib_of (sp_linear sp) freqs /\ sp_vib sp' = vib_of (sp_linear sp') freqs.
 
 (* ------------------------------------------------------------------ over the reals *)
 Open Scope R_scope.
 
 (* the eigenvalue oracle is valid: three positive numbers whose product is the determinant and whose sum is
    the trace of the matrix handed to eigvalsh (all a symmetric positive-definite matrix's spectrum is used for) *)
+(* the eigenvalue oracle is only consulted by the non-linear branch of _q_rot_igm of a species with more than one atom *)
+Definition needs_eig {F} (sp : Species F) : Prop := sp_linear sp = false /\ List.length (sp_atoms sp) <> 1%nat.
 Definition eig_ok (sp : Species R) : Prop :=
   prod3 RO (sp_eig sp) = det3 RO (eig_arg RO sp) /\
   sum3 RO (sp_eig sp) = trace3 RO (eig_arg RO sp) /\
@@ -149,3 +157,21 @@ Definition freq_arg (f : qty) : option Qc :=
   | Num x => value_to frequency_units x AV.gen.C06_Gen.u_wavenumber "cm-1"
   | WithUnit x u => value_to frequency_units x u "cm-1"
   end.
+
+(* ------------------------------------------------------------------ the linearity oracle, hand model (rational form) *)
+(* Atoms.are_linear (atoms.py, pinned; as repaired by 5a4ab9d): fewer than 2 atoms -> False; 2 atoms -> True; otherwise with
+   tol = |1 - cos(angle_tol)|: for EVERY atom i, the unit vectors from i to all the other atoms; False as soon as some pair of
+   them has | |cos| - 1 | > tol.  Since |cos| <= 1 the test reads |cos| < 1 - tol, i.e. (v.w)^2 < (1 - tol)^2 (v.v)(w.w) for the
+   unnormalised difference vectors: a decision over the rationals (no square root), equal to the code's up to rounding of a tie.
+   (Quantifying j, k over ALL atoms instead of the others only adds zero vectors, for which the strict test is false.) *)
+Definition dq (a b : @atom Qc) : Qc * Qc * Qc := ((ax a - ax b)%Qc, (ay a - ay b)%Qc, (az a - az b)%Qc).
+Definition dotq (v w : Qc * Qc * Qc) : Qc :=
+  let '(a, b, c) := v in let '(d, e, f) := w in (a * d + b * e + c * f)%Qc.
+Definition off_axis (tol : Qc) (a j k : @atom Qc) : bool :=
+  let v := dq j a in let w := dq k a in
+  Qcltb (dotq v w * dotq v w)%Qc ((Q2Qc 1 - tol) * (Q2Qc 1 - tol) * dotq v v * dotq w w)%Qc.
+Definition all_on_axis (tol : Qc) (atoms : list (@atom Qc)) : bool :=
+  forallb (fun a => forallb (fun j => forallb (fun k => negb (off_axis tol a j k)) atoms) atoms) atoms.
+Definition are_linear_q (tol : Qc) (atoms : list (@atom Qc)) : bool :=
+  if Nat.ltb (List.length atoms) 2 then false
+  else if Nat.eqb (List.length atoms) 2 then true else all_on_axis tol atoms.
